@@ -234,7 +234,7 @@ func (f *Flow[S]) stmt(st ast.Stmt, s *S, label string) *S {
 			fr.breaks, fr.continues = nil, nil
 			f.frames = append(f.frames, fr)
 			body := f.simple(st, f.cp(head)) // header: binds key/value
-			exit = f.cp(head)                 // zero or more iterations
+			exit = f.cp(head)                // zero or more iterations
 			body = f.block(st.Body.List, body)
 			f.frames = f.frames[:len(f.frames)-1]
 			body = f.join(body, fr.continues)
